@@ -384,6 +384,19 @@ def oracle(impl, op, before, outc):
                     bad.append("result %d shares memory with caller array %d" % (nid, a_i))
         if not isinstance(new.times, np.ndarray):
             bad.append("result %d: times is %s, not an array" % (nid, type(new.times).__name__))
+    # an operation that builds a new signal (copy, sum, scaled signal, re-gridded signal) leaves every
+    # existing signal as it was
+    if k in ("copy", "add", "mul", "rmul", "div", "with_times") and outc[0] in (0, 3):
+        for i in range(len(before["times"])):
+            o = O[i]
+            try:
+                now = (fr_list(o.times), fr_list(o.values), o.value_type.value,
+                       [(frac(b[0]), frac(b[1])) for b in o._buffers] if impl.cls_of(o)[0] == 2 else None)
+            except Exception:
+                continue
+            was = (before["times"][i], before["values"][i], before["vt"][i], before["bufs"][i])
+            if was[1] is not None and now != was:
+                bad.append("operand/bystander object %d was modified by %s" % (i, k))
     if k == "radd" and op["k"] == 0 and outc != (1, op["i"]):
         bad.append("0 + signal did not return the signal itself")
     if k == "add":
@@ -723,7 +736,7 @@ def model_trace(parsed):
 # ------------------------------------------------------------------ running one history
 def snapshot(impl, gen):
     O = impl.objs
-    snap = {"times": [], "values": [], "vt": [], "cls": [], "strict": [], "fns": [], "ext": [fr_list(a) for a in impl.ext]}
+    snap = {"times": [], "values": [], "vt": [], "cls": [], "strict": [], "fns": [], "bufs": [], "ext": [fr_list(a) for a in impl.ext]}
     for i, o in enumerate(O):
         t = fr_list(o.times) if isinstance(o.times, np.ndarray) else None
         snap["times"].append(t)
@@ -734,6 +747,7 @@ def snapshot(impl, gen):
         snap["vt"].append(o.value_type.value)
         snap["cls"].append(impl.cls_of(o)[0])
         snap["strict"].append(t is not None and len(t) >= 1 and all(a < b for a, b in zip(t, t[1:])))
+        snap["bufs"].append([(frac(b[0]), frac(b[1])) for b in o._buffers] if impl.cls_of(o)[0] == 2 else None)
         if impl.cls_of(o)[0] == 2:
             snap["fns"].append([(gen.fns.get(id(f), None), frac(t0), frac(fac)) for f, t0, fac in zip(o._functions, o._t0s, o._factors)])
         else:
@@ -902,7 +916,7 @@ def run(ctx):
     for ops in ex:
         o, st, comp = execute(None, fixed_ops=ops)
         histories.append(("pairs", o, st, comp))
-    n_rand = ctx.n(300, 8000)
+    n_rand = ctx.n(300, 5000)
     for n in range(n_rand):
         o, st, comp = execute(None, rng=rng, max_ops=rng.choice([8, 15, 30, 30]), malformed=(n % 6 == 5))
         histories.append(("random", o, st, comp))
@@ -926,6 +940,10 @@ def run(ctx):
         ctx.case(key=tuple((o_["op"], o_.get("cls"), o_.get("vt")) for o_ in ops), nontrivial=len(ops) > 3,
                  sample={"tag": tag, "ops": ops[:12]} if n % 97 == 0 else None)
         d = compact_diff(steps, traces[n]) if traces is not None else None
+        if (complaints or d is not None) and len(ctx.failures) >= 6:
+            # enough witnesses recorded: only count the rest (keeps a failing run within the time budget)
+            disagreements += 1 if d is not None else 0
+            continue
         if d is not None:
             # full trace for the report
             try:
@@ -945,9 +963,11 @@ def run(ctx):
             # a model/implementation difference is a violation with witness when the property oracle
             # also objects on the minimised history; otherwise it is a broken correspondence
             _, _, comp2 = execute(None, fixed_ops=small)
+            # witness only when the property oracle objects on this history too; a pure model/code
+            # difference is a broken correspondence (reported without failing input)
             ctx.fail(key_of(small, len(small) - 1) + "|corr", "implementation and model differ at step %d (%s): %s" % (
                 step, describe(ops[step])[:160], text),
-                {"kind": "history", "ops": small, "judged": "model", "difference": text}, witness=bool(comp2) or True)
+                {"kind": "history", "ops": small, "judged": "model", "difference": text}, witness=bool(comp2))
     ctx.oblige("corr:histories-agree", disagreements == 0 and traces is not None,
                "%d of %d histories differ" % (disagreements, len(histories)))
     ctx.extra["correspondence"] = {"histories": len(histories), "disagreements": disagreements,
